@@ -96,7 +96,11 @@ func (c *c15Case) Exec() {
 				v = []byte{}
 			}
 		}
-		err := w.WriteNext(call.K, v)
+		// the caller streams from reused buffers: what the writer wants to keep it has to copy
+		kb, vb := scratchCopy(call.K), scratchCopy(v)
+		err := w.WriteNext(kb, vb)
+		scribble(kb)
+		scribble(vb)
 		delete(fd.fail, fd.n+1)
 		delete(fi.fail, fi.n+1)
 		switch {
